@@ -333,6 +333,93 @@ def make_confusable(rng, g):
     return name, k
 
 
+# -- ids whose text is not in Unicode normal form C -------------------------------------------------------------------
+# (flavour, NFC spelling, another spelling of 'the same' text that is NOT in NFC).  To the statement both are opaque,
+# different id texts.
+NFC_PAIRS = [
+    ("letter + combining mark", "r\u00e9gion", "re\u0301gion"),
+    ("letter + combining mark", "\u00f1", "n\u0303"),
+    ("letter + combining mark", "\u00fc", "u\u0308"),
+    ("letter + combining mark", "\u00c7", "C\u0327"),
+    ("two combining marks in non-canonical order", "\u1e69", "s\u0307\u0323"),
+    ("conjoining Hangul jamo", "\ud55c", "\u1112\u1161\u11ab"),
+    ("conjoining Hangul jamo", "\uac00", "\u1100\u1161"),
+    ("ANGSTROM SIGN", "\u00c5", "\u212b"),
+    ("OHM SIGN", "\u03a9", "\u2126"),
+    ("KELVIN SIGN", "K", "\u212a"),
+    ("CJK compatibility ideograph", "\u8c48", "\uf900"),
+]
+
+
+def _nfc_place(rng, piece, base):
+    return rng.choice([piece + base, base + piece, base[:1] + piece + base[1:], piece])
+
+
+def make_nonnfc(rng, g, twins=None):
+    """Rename 1-3 ids (consistently in every Parent list; features WITH children first) to texts that are not in Unicode
+    normal form C, and (twins: drawn, 1 of 2) make one feature that has children exist in BOTH spellings - composed and
+    decomposed - as two distinct features, each named as Parent by at least one line.  Returns {"flavours": [...],
+    "renamed": k, "twins": [id, id] or None} or None when nothing could be renamed."""
+    import unicodedata
+
+    nodes = g["nodes"]
+    ids = [n["id"] for n in nodes]
+    named = [p for n in nodes for p in n["parents"]]
+    dangling = sorted(set(named) - set(ids))
+    bearing = [i for i in ids if i in named]
+    rng.shuffle(bearing)
+    rest = [i for i in ids + dangling if i not in bearing]
+    rng.shuffle(rest)
+    pool = bearing + rest
+    taken = set(pool)
+    mapping, flavours = {}, []
+    for old in pool[:rng.choice([1, 1, 2, 3])]:
+        fl, comp, dec = rng.choice(NFC_PAIRS)
+        new = _nfc_place(rng, dec, old)
+        if new in taken or unicodedata.normalize("NFC", new) in taken:
+            continue
+        mapping[old] = new
+        taken.add(new)
+        flavours.append(fl)
+    for n in nodes:
+        n["id"] = mapping.get(n["id"], n["id"])
+        n["parents"] = [mapping.get(p, p) for p in n["parents"]]
+    pair = None
+    if twins is None:
+        twins = rng.random() < 0.5
+    hosts = [n for n in nodes if any(n["id"] in m["parents"] for m in nodes) and n["id"] not in mapping.values()]
+    if twins and hosts:
+        x = rng.choice(hosts)
+        fl, comp, dec = rng.choice(NFC_PAIRS)
+        where = rng.randrange(4)
+        a, b = [[s + x["id"], x["id"] + s, x["id"][:1] + s + x["id"][1:], s][where] for s in (comp, dec)]
+        if a not in taken and b not in taken and a != b:
+            if rng.random() < 0.5:
+                a, b = b, a
+            old = x["id"]
+            twin = dict(x, id=b, parents=list(x["parents"]), start=x["start"] + 1)
+            x["id"] = a
+            kids = [m for m in nodes if old in m["parents"]]
+            for m in kids:
+                r = rng.random()
+                to = [a] if r < 0.4 else [b] if r < 0.8 else [a, b]
+                if len(m["parents"]) + len(to) - 1 > 3:
+                    to = to[:1]
+                k = m["parents"].index(old)
+                m["parents"][k:k + 1] = to
+            nodes.insert(nodes.index(x) + 1, twin)
+            for want in (a, b):
+                if not any(want in m["parents"] for m in nodes):
+                    src = rng.choice(kids)
+                    new_id = word_id(rng, taken | {m["id"] for m in nodes})
+                    nodes.append(dict(src, id=new_id, parents=[want], start=src["start"] + 2, end=src["end"] + 2))
+            pair = [a, b]
+            flavours.append(fl)
+    if not mapping and not pair:
+        return None
+    return {"flavours": flavours, "renamed": len(mapping), "twins": pair}
+
+
 # -- "wide" graphs: one feature with more than 1000 direct children -------------------------------------------
 def wide_params(rng):
     """Parameters (JSON-able, small) of a wide graph: `n` direct children of one hub; the children listed in
